@@ -40,6 +40,7 @@ import (
 	"strings"
 	"testing"
 
+	"github.com/bfenetworks/bfe/bfe_balance/bal_slb"
 	"github.com/bfenetworks/bfe/bfe_basic"
 	"github.com/bfenetworks/bfe/bfe_http"
 	"github.com/bfenetworks/bfe/bfe_route"
@@ -1355,6 +1356,196 @@ func (e *c14env) familyS() {
 }
 
 // ---------------------------------------------------------------------------------------------
+// family GH: reload histories that REPLACE sub-clusters. For every ordered pair (A, B) of
+// sub-cluster sets of one cluster (A: 1..4 names, B: 2..3 names with weight > 0, drawn from four
+// names) the decisions for a key set covering every residue of the total weight must be the same
+// after {fresh load of B}, {load A, reload to B} and {load B, reload to A, reload to B}.
+
+// c14residueKeys returns client addresses whose hash covers every residue of every total weight
+// in [2, maxTotal] (hash exactly as BalanceGslb.subClusterBalance computes it for ClientIpOnly).
+func c14residueKeys(t *testing.T, maxTotal int) []string {
+	var keys []string
+	covered := func(total, res int) bool {
+		for _, k := range keys {
+			if bal_slb.GetHash(net.ParseIP(k), uint(total)) == res {
+				return true
+			}
+		}
+		return false
+	}
+	for total := 2; total <= maxTotal; total++ {
+		for res := 0; res < total; res++ {
+			if covered(total, res) {
+				continue
+			}
+			found := false
+			for i := 1; i < 250 && !found; i++ {
+				k := fmt.Sprintf("10.8.%d.%d", total, i)
+				if bal_slb.GetHash(net.ParseIP(k), uint(total)) == res {
+					keys = append(keys, k)
+					found = true
+				}
+			}
+			if !found {
+				t.Fatalf("c14: no client address for residue %d of %d", res, total)
+			}
+		}
+	}
+	return keys
+}
+
+func (e *c14env) familyGH() {
+	r := e.r
+	names := []string{"sa", "sb", "sc", "sd"}
+	patterns := [][]int{{1, 1, 1, 1}, {1, 2, 1, 2}}
+	if r.Thorough() {
+		patterns = append(patterns, []int{2, 1, 3, 1}, []int{1, 0, 2, 1})
+	}
+	keys := c14residueKeys(e.t, 8)
+	var probes []c14probe
+	for _, k := range keys {
+		probes = append(probes, c14probe{host: "a.com", path: "/", cip: k})
+	}
+	r.Set("GH.alphabet", fmt.Sprintf("sub-cluster names %v, weight patterns %v; ordered pairs (A,B), A any non-empty set, B any set with 2..3 names (>=2 of weight>0); histories fresh(B), A->B, B->A->B; %d client keys covering every residue of every total weight 2..8", names, patterns, len(keys)))
+	hf := c14o(false, "Version", "v1", "Hosts", c14o(false, "t1", []string{"a.com"}), "HostTags", c14o(false, "p1", []string{"t1"}))
+	route := c14advRoute(map[string][][2]string{"p1": {{"default_t()", "c1"}}}, []string{"p1"})
+	cc := c14clusterConf(false, false, "c1")
+	mk := func(set int, w []int) *c14cfg {
+		gs := c14o(true)
+		ct := c14o(true)
+		for i, n := range names {
+			if set&(1<<i) == 0 {
+				continue
+			}
+			gs.add(n, w[i])
+			ct.add(n, c14a(false, c14backend("x_"+n, fmt.Sprintf("10.0.%d.1", i+1), 80, 1), c14backend("y_"+n, fmt.Sprintf("10.0.%d.2", i+1), 80, 2)))
+		}
+		c := &c14cfg{fam: "G", bal: true, probes: probes}
+		c.files[c14fHost] = hf
+		c.files[c14fVip] = c14vipEmpty()
+		c.files[c14fRoute] = route
+		c.files[c14fClusterConf] = cc
+		c.files[c14fGslb] = c14o(false, "Clusters", c14o(true, "c1", gs), "Hostname", "gslb.test", "Ts", "1")
+		c.files[c14fClusterTable] = c14o(false, "Version", "v1", "Config", c14o(true, "c1", ct))
+		return c
+	}
+	bits := func(x int) (n int) {
+		for ; x != 0; x &= x - 1 {
+			n++
+		}
+		return
+	}
+	reps := r.Pick(2, 4)
+	for pi, w := range patterns {
+		for a := 1; a < 16; a++ {
+			for b := 1; b < 16; b++ {
+				if a == b || bits(b) < 2 || bits(b) > 3 {
+					continue
+				}
+				weighted := 0
+				for i := range names {
+					if b&(1<<i) != 0 && w[i] > 0 {
+						weighted++
+					}
+				}
+				wa := 0
+				for i := range names {
+					if a&(1<<i) != 0 && w[i] > 0 {
+						wa++
+					}
+				}
+				if weighted < 2 || wa == 0 {
+					continue
+				}
+				id := vk.Key("GH", pi, a, b)
+				if !e.want(id) {
+					continue
+				}
+				cA, cB := mk(a, w), mk(b, w)
+				cB.id = id
+				var bsites []*c14j
+				cB.files[c14fGslb].sites(&bsites)
+				cB.files[c14fClusterTable].sites(&bsites)
+				orders, _ := c14variants(bsites, e.full, false)
+				if len(orders) > 2 {
+					orders = orders[:2] // base and all-reversed
+				}
+				var obs []c14obs
+				run := func(what string, steps []*c14cfg) {
+					for oi, as := range orders {
+						for rep := 0; rep < reps; rep++ {
+							e.writeCfg(cB, nil)
+							o := c14obs{what: fmt.Sprintf("%s, member order %d, run %d", what, oi, rep)}
+							var l *c14loaded
+							for si, st := range steps {
+								var ord map[*c14j][]int
+								if st == cB {
+									ord = as
+								}
+								e.writeCfg(st, ord, c14fGslb, c14fClusterTable)
+								if si == 0 {
+									l, o.rej = e.load(cB, 0)
+								} else {
+									e.loads++
+									var err error
+									if panicked, val := vk.Guard(func() { err = e.reload(l) }); panicked {
+										o.rej = "panic:" + vk.PanicSite(val)
+									} else if err != nil {
+										o.rej = "rejected"
+									}
+								}
+								if o.rej != "" {
+									break
+								}
+							}
+							if o.rej == "" {
+								o.dec = e.decide(cB, l)
+							}
+							l.release()
+							obs = append(obs, o)
+						}
+					}
+				}
+				run("fresh load of B", []*c14cfg{cB})
+				run("load A, reload to B", []*c14cfg{cA, cB})
+				run("load B, reload to A, reload to B", []*c14cfg{cB, cA, cB})
+				removed, added := bits(a&^b), bits(b&^a)
+				cls := "replaced-sub-clusters"
+				switch {
+				case removed == 0:
+					cls = "added-sub-clusters"
+				case added == 0:
+					cls = "removed-sub-clusters"
+				}
+				kind, x, y, pi2 := c14compare(obs)
+				if kind != "" {
+					detail := fmt.Sprintf("A=%s B=%s: [%s] => %s ; [%s] => %s", c14gslbText(cA), c14gslbText(cB), x.what, c14show(x, pi2), y.what, c14show(y, pi2))
+					if pi2 >= 0 {
+						detail = "client " + probes[pi2].cip + ": " + detail
+					}
+					r.Violation("G:"+cls+":reload-history:"+kind, id, detail)
+					r.Outcome("config:reload-history:disagreement")
+				} else if obs[0].rej == "" {
+					r.Outcome("config:reload-history:consistent")
+					r.Nontrivial(id)
+					for _, d := range obs[0].dec {
+						r.Outcome(c14class(d))
+					}
+				} else {
+					r.Outcome("config:rejected-consistent")
+				}
+			}
+		}
+	}
+}
+
+func c14gslbText(c *c14cfg) string {
+	var sb strings.Builder
+	c.files[c14fGslb].vals[0].render(&sb, nil)
+	return sb.String()
+}
+
+// ---------------------------------------------------------------------------------------------
 
 func (e *c14env) families() {
 	for e.pass = 0; e.pass < 2; e.pass++ {
@@ -1369,6 +1560,7 @@ func (e *c14env) familiesOnce() {
 	e.familyHE()
 	e.familyV()
 	e.familyG()
+	e.familyGH()
 	e.familyR()
 	e.familyH()
 }
